@@ -56,7 +56,8 @@ TABLES = None  # the pinned terminal sets, asked from the Lean Spec at start-up
 GUARD_S = 60.0
 
 SPECIAL_DATA = {"m", "mt", "tr", "mode", "imp", "vol", "u", "lat", "fill", "f", "fm", "fs", "sdef", "fc", "sc"}
-BORING = ("Cell", "Mat:", "Atom:surf", "Entry:real", "Real:", "Inter", "Union")
+BORING = ("Mat:", "Atom:surf", "Entry:real", "Real:")
+BORING_EXACT = {"Cell", "Inter", "Union"}
 
 
 # --------------------------------------------------------------------------------------------- implementation side
@@ -426,14 +427,14 @@ def rule_tag(spec):
         if t.startswith("Data:") and not t.startswith("Data:keyword") and not t.startswith("Data:option"):
             n = t[5:].lstrip("*")
             t = "Data:" + (n if n in SPECIAL_DATA else "generic")
-        if t.startswith(BORING) and not t.startswith("Real:zero"):
+        if t in BORING_EXACT or (t.startswith(BORING) and not t.startswith("Real:zero")):
             continue
         if t.startswith(("Zaid:lib", "Material:", "Law", "Mode:particle", "TallyBins:number", "FS:list")) and not t.endswith("keyword-letter"):
             continue
         if t not in tags:
             tags.append(t)
     kind = spec["kind"]
-    return "+".join(sorted(tags)) if tags else {"cell": "Cell", "surface": "Surface", "data": "Data"}[kind]
+    return "+".join(sorted(tags)) if tags else {"cell": "Cell", "surface": "Surface:" + spec.get("mn", ""), "data": "Data"}[kind]
 
 
 CAUSES = [
